@@ -46,7 +46,7 @@ Ltac head_scrut t :=
 
 Ltac unf_helpers :=
   repeat progress unfold impl_ok, fault, rx_fault, rx_iter, upd, post_status, start_rx, send_out, close_rest,
-    close_cons, close2_cons, close_returned, cons_after_cb, rx_loop_test, rx_done, spawn_connect, release, start_attempt, new_conn,
+    close_cons, close2_cons, close_returned, seed_task, seed_next, seed_send, cons_after_cb, rx_loop_test, rx_done, spawn_connect, release, start_attempt, new_conn,
     close_cur_writer, is_closed, rx_alive, cons_alive.
 Ltac unf := unfold trans; unf_helpers.
 
@@ -77,7 +77,7 @@ Ltac bool_hyps :=
   | H : (_ =? _)%nat = false |- _ => apply Nat.eqb_neq in H
   end.
 
-(* goal: [trans k fe fc fl fd fg x a = Some y -> Q x y] with x a constructor application ([destruct x] first) *)
+(* goal: [trans k sd fe fc fl fd fg x a = Some y -> Q x y] with x a constructor application ([destruct x] first) *)
 Ltac step_cases fin :=
   unf; split_goal;
   (let H := fresh in intro H; injection H as <-); subst; cbn in *; bool_hyps; fin.
@@ -104,9 +104,10 @@ Ltac nw_fin D nxt :=
 
 Section Runs.
 Variable k : kind.
+Variable sd : bool.
 Variables fe fc fl fd fg : bool.
-Notation T := (trans k fe fc fl fd fg).
-Notation R := (run k fe fc fl fd fg).
+Notation T := (trans k sd fe fc fl fd fg).
+Notation R := (run k sd fe fc fl fd fg).
 
 Lemma run_app x l1 l2 : R x (l1 ++ l2) = match R x l1 with Some y => R y l2 | None => None end.
 Proof. revert x; induction l1 as [|a t IH]; intros x; simpl; [reflexivity|]. destruct (T x a); auto. Qed.
@@ -125,19 +126,19 @@ Proof.
 Qed.
 End Runs.
 
-Definition reachable (k : kind) (fe fc fl fd fg : bool) (x : g) : Prop := exists ls, run k fe fc fl fd fg init ls = Some x.
+Definition reachable (k : kind) (sd fe fc fl fd fg : bool) (x : g) : Prop := exists ls, run k sd fe fc fl fd fg init ls = Some x.
 
-Lemma reachable_invariant k fe fc fl fd fg (P : g -> Prop) :
-  P init -> (forall x a y, P x -> trans k fe fc fl fd fg x a = Some y -> P y) ->
-  forall x, reachable k fe fc fl fd fg x -> P x.
+Lemma reachable_invariant k sd fe fc fl fd fg (P : g -> Prop) :
+  P init -> (forall x a y, P x -> trans k sd fe fc fl fd fg x a = Some y -> P y) ->
+  forall x, reachable k sd fe fc fl fd fg x -> P x.
 Proof. intros H0 Hs x [ls Hr]. eapply run_invariant; eauto. Qed.
 
-Lemma reachable_step k fe fc fl fd fg x a y :
-  reachable k fe fc fl fd fg x -> trans k fe fc fl fd fg x a = Some y -> reachable k fe fc fl fd fg y.
+Lemma reachable_step k sd fe fc fl fd fg x a y :
+  reachable k sd fe fc fl fd fg x -> trans k sd fe fc fl fd fg x a = Some y -> reachable k sd fe fc fl fd fg y.
 Proof. intros [ls Hr] Ht. exists (ls ++ [a]). eapply run_snoc; eauto. Qed.
 
-Lemma reachable_run k fe fc fl fd fg x ls y :
-  reachable k fe fc fl fd fg x -> run k fe fc fl fd fg x ls = Some y -> reachable k fe fc fl fd fg y.
+Lemma reachable_run k sd fe fc fl fd fg x ls y :
+  reachable k sd fe fc fl fd fg x -> run k sd fe fc fl fd fg x ls = Some y -> reachable k sd fe fc fl fd fg y.
 Proof. intros [l0 Hr] Ht. exists (l0 ++ ls). rewrite run_app, Hr. exact Ht. Qed.
 
 (* ------------------------------------------------------------------------------------------------ *)
@@ -201,6 +202,7 @@ Local Arguments allowed : simpl never.
 
 Section Inv.
 Variable k : kind.
+Variable sd : bool.
 Variable fd : bool.
 Variable fg : bool.
 
@@ -210,7 +212,7 @@ Definition attempt_no_ok (x : g) : Prop :=
 Definition closed_iff_closing (x : g) : Prop := st x = Closed <-> closing x <> KNone.
 Definition I0 (x : g) : Prop := hold_lock_ok x /\ attempt_no_ok x /\ closed_iff_closing x.
 
-Lemma I0_step fe fl x a y : I0 x -> trans k fe true fl fd fg x a = Some y -> I0 y.
+Lemma I0_step fe fl x a y : I0 x -> trans k sd fe true fl fd fg x a = Some y -> I0 y.
 Proof.
   unfold I0, hold_lock_ok, attempt_no_ok, closed_iff_closing. intros (A & B & C). destruct x; cbn in *. destruct a.
   all: step_cases ltac:(intuition (try congruence; try lia)).
@@ -220,7 +222,7 @@ Qed.
 Definition I1 (x : g) : Prop :=
   old_live x = 0%nat /\ (hold x = HCancelWait -> rx_alive x = false \/ rx_creq x = true).
 
-Lemma I1_step fe fc fl x a y : I1 x -> trans k fe fc fl fd fg x a = Some y -> I1 y.
+Lemma I1_step fe fc fl x a y : I1 x -> trans k sd fe fc fl fd fg x a = Some y -> I1 y.
 Proof.
   unfold I1, rx_alive. intros (A & B). destruct x; cbn in *. destruct a.
   all: step_cases ltac:(try (split; [try congruence|]); try (intuition congruence); try (destruct rx; intuition congruence)).
@@ -228,10 +230,11 @@ Qed.
 
 (* ---- C13 (b): a reconnect is never lost ---- *)
 Definition reconnect_pending (x : g) : Prop :=
-  lock x = true \/ (0 < pending_connects x)%nat \/ (rx x = RInCb /\ rx_creq x = false) \/ (0 < send_cb x)%nat.
+  lock x = true \/ (0 < pending_connects x)%nat \/ (rx x = RInCb /\ rx_creq x = false) \/ (0 < send_cb x)%nat \/
+  (0 < seed_cb x)%nat.
 Definition I2 (x : g) : Prop := st x = Disc -> trace x = [] \/ reconnect_pending x.
 
-Lemma I2_step fe x a y : I0 x -> I2 x -> trans k fe true true fd fg x a = Some y -> I2 y.
+Lemma I2_step fe x a y : I0 x -> I2 x -> trans k sd fe true true fd fg x a = Some y -> I2 y.
 Proof.
   unfold I0, hold_lock_ok, attempt_no_ok, closed_iff_closing, I2, reconnect_pending.
   intros (A & B & C) D. destruct x; cbn in *. destruct a.
@@ -240,7 +243,7 @@ Qed.
 
 
 (* ---- C14 (b): the status callback is invoked exactly at the state changes ---- *)
-Lemma trace_step fe fc fl x a y : trans k fe fc fl fd fg x a = Some y ->
+Lemma trace_step fe fc fl x a y : trans k sd fe fc fl fd fg x a = Some y ->
   (st y = st x /\ trace y = trace x) \/ (st y <> st x /\ trace y = st y :: trace x).
 Proof.
   destruct x; cbn in *. destruct a.
@@ -248,7 +251,7 @@ Proof.
 Qed.
 
 (* ---- C14 (a): CLOSED is absorbing, no connection attempt starts once CLOSED ---- *)
-Lemma closed_step fe fl x a y : st x = Closed -> trans k fe true fl fd fg x a = Some y ->
+Lemma closed_step fe fl x a y : st x = Closed -> trans k sd fe true fl fd fg x a = Some y ->
   st y = Closed /\ attempts y = attempts x /\ trace y = trace x.
 Proof.
   intros C. destruct x; cbn in C; subst. destruct a.
@@ -264,7 +267,7 @@ Definition I5 (x : g) : Prop :=
   (closing x = KSleepRx -> rx_quiet x = true \/ rx_creq x = true) /\
   (closing x = KSleepCons \/ closing x = KDone -> rx_quiet x = true).
 
-Lemma I5_step fe fl x a y : I0 x -> I5 x -> trans k fe true fl fd fg x a = Some y -> I5 y.
+Lemma I5_step fe fl x a y : I0 x -> I5 x -> trans k sd fe true fl fd fg x a = Some y -> I5 y.
 Proof.
   unfold I0, hold_lock_ok, attempt_no_ok, closed_iff_closing, I5, rx_quiet, cons_alive.
   intros (A & B & C) (D1 & D2 & D3 & D4). destruct x; cbn in *. destruct a.
@@ -284,14 +287,14 @@ Definition NW (x : g) : Prop :=
   closing x <> KNone -> forall w, (n0 x <= w < next_w x)%nat ->
   In w (closed_w x) \/ In w (drainfail_w x) \/ (writer x = Some w /\ awaiting_drain x).
 
-Lemma W_step fe fl x a y : closed_iff_closing x -> W x -> trans k fe true fl fd fg x a = Some y -> W y.
+Lemma W_step fe fl x a y : closed_iff_closing x -> W x -> trans k sd fe true fl fd fg x a = Some y -> W y.
 Proof.
   unfold closed_iff_closing, W, past_close_rest, awaiting_drain.
   intros C D. destruct x; cbn in *. destruct a.
   all: step_cases ltac:(try solve [intuition congruence]; destr_vars; try (intuition (try congruence))).
 Qed.
 
-Lemma NW_step fe fl x a y : closed_iff_closing x -> NW x -> trans k fe true fl fd fg x a = Some y -> NW y.
+Lemma NW_step fe fl x a y : closed_iff_closing x -> NW x -> trans k sd fe true fl fd fg x a = Some y -> NW y.
 Proof.
   unfold closed_iff_closing, NW, awaiting_drain.
   intros C D. destruct x; cbn in *. destruct a.
@@ -303,7 +306,7 @@ Qed.
 (* the receive loop and the queue consumer are never both in the middle of an event-loop step *)
 Definition excl (x : g) : Prop := rx x = RRun -> cons x = CRun -> False.
 
-Lemma excl_step fe fc fl x a y : excl x -> trans k fe fc fl fd fg x a = Some y -> excl y.
+Lemma excl_step fe fc fl x a y : excl x -> trans k sd fe fc fl fd fg x a = Some y -> excl y.
 Proof.
   unfold excl. intros D. destruct x; cbn in *. destruct a.
   all: step_cases ltac:(try solve [intuition congruence];
@@ -328,7 +331,7 @@ Definition mu (x : g) : nat :=
   | _ => match cons x with CRun => S (Z.to_nat (q x)) | _ => O end
   end.
 
-Lemma busy_step fc fl x a y : excl x -> busy x = true -> trans k true fc fl fd fg x a = Some y -> (mu y < mu x)%nat.
+Lemma busy_step fc fl x a y : excl x -> busy x = true -> trans k sd true fc fl fd fg x a = Some y -> (mu y < mu x)%nat.
 Proof.
   unfold excl, busy, mu. intros D E. destruct x; cbn in *. destruct a.
   all: step_cases ltac:(
@@ -352,7 +355,7 @@ Definition act_norm (a : act) : act :=
   | _ => a
   end.
 
-Lemma cb_raise_harmless fe fc fl x a : trans k fe fc fl fd fg x (act_norm a) = trans k fe fc fl fd fg x a.
+Lemma cb_raise_harmless fe fc fl x a : trans k sd fe fc fl fd fg x (act_norm a) = trans k sd fe fc fl fd fg x a.
 Proof.
   destruct a; try reflexivity;
   repeat match goal with
@@ -363,18 +366,19 @@ Proof.
 Qed.
 
 (* the receive callback: whether it returns or raises, the successor state is the same *)
-Lemma rcb_raise_harmless fe fc fl x : trans k fe fc fl fd fg x (AConsGot RcRaise) = trans k fe fc fl fd fg x (AConsGot RcRet).
+Lemma rcb_raise_harmless fe fc fl x : trans k sd fe fc fl fd fg x (AConsGot RcRaise) = trans k sd fe fc fl fd fg x (AConsGot RcRet).
 Proof. reflexivity. Qed.
 
 
 (* ---- C13 (b), (e): what a fault and what a successful connect do ---- *)
 Definition fault_cb (a : act) : option cbout :=
   match a with
-  | ARxIter (RxRaise _ c) | ARxSleepDone c | ASendEntry (SFault c) | ASendDrainDone (SFault c) => Some c
+  | ARxIter (RxRaise _ c) | ARxSleepDone c | ASendEntry (SFault c) | ASendDrainDone (SFault c)
+  | ASeedTimer (SFault c) _ | ASeedDrainDone (SFault c) _ => Some c
   | _ => None
   end.
 
-Lemma fault_step fe fc fl x a y c : fault_cb a = Some c -> st x <> Closed -> trans k fe fc fl fd fg x a = Some y ->
+Lemma fault_step fe fc fl x a y c : fault_cb a = Some c -> st x <> Closed -> trans k sd fe fc fl fd fg x a = Some y ->
   st y = Disc /\ reconnect_pending y /\
   (st x = Conn -> c <> CbNone /\ trace y = Disc :: trace x) /\
   (st x = Disc -> c = CbNone /\ trace y = trace x).
@@ -390,7 +394,7 @@ Proof.
 Qed.
 
 Lemma connect_fail_step fe fc fl x a y d : a = AImplFail d \/ a = AImplFailOpened d ->
-  attempt_no_ok x -> hold_lock_ok x -> trans k fe fc fl fd fg x a = Some y ->
+  attempt_no_ok x -> hold_lock_ok x -> trans k sd fe fc fl fd fg x a = Some y ->
   exists n, (hold x = HAwaitImpl n \/ hold x = HAwaitDrain n) /\ hold y = HBackoff n /\
             d = wait2 (Z.of_nat n) /\ 1 <= d <= 20 /\ lock y = true /\ st y = st x /\ attempts y = attempts x.
 Proof.
@@ -401,14 +405,14 @@ Proof.
 Qed.
 
 Lemma backoff_done_step fe fc fl x y n : hold x = HBackoff n -> st x <> Closed ->
-  trans k fe fc fl fd fg x ABackoffDone = Some y ->
+  trans k sd fe fc fl fd fg x ABackoffDone = Some y ->
   hold y = HAwaitImpl (S n) /\ attempts y = S (attempts x) /\ lock y = true /\ st y = st x.
 Proof.
   intros A C. destruct x; cbn in *. subst.
   step_cases ltac:(try congruence; auto).
 Qed.
 
-Lemma connect_ok_step fe fl x y cb : st x <> Closed -> trans k fe true fl fd fg x (AImplOk cb) = Some y ->
+Lemma connect_ok_step fe fl x y cb : st x <> Closed -> trans k sd fe true fl fd fg x (AImplOk cb) = Some y ->
   st y = Conn /\ (st x <> Conn -> cb <> CbNone /\ trace y = Conn :: trace x) /\
   match cb with
   | CbSusp => hold y = HStatusCb
@@ -422,7 +426,7 @@ Qed.
 
 (* when the connect() coroutine that owns the lock finishes: CLOSED, or a fresh receive task has been created
    and (if a fault was reported meanwhile) another connect() has been scheduled *)
-Lemma lock_release_step fe fc x a y : hold_lock_ok x -> lock x = true -> trans k fe fc true fd fg x a = Some y -> lock y = false ->
+Lemma lock_release_step fe fc x a y : hold_lock_ok x -> lock x = true -> trans k sd fe fc true fd fg x a = Some y -> lock y = false ->
   st y = Closed \/
   (rx y = RCreated /\ rx_creq y = false /\ (st y = Conn \/ (st y = Disc /\ (0 < pending_connects y)%nat))).
 Proof.
@@ -430,7 +434,7 @@ Proof.
   all: step_cases ltac:(try congruence; try (intros _); auto 7 with arith).
 Qed.
 
-Lemma rx_start_step fe fc fl x y : st x <> Closed -> trans k fe fc fl fd fg x ARxStart = Some y ->
+Lemma rx_start_step fe fc fl x y : st x <> Closed -> trans k sd fe fc fl fd fg x ARxStart = Some y ->
   rx x = RCreated /\ rx y = RRun.
 Proof.
   intros C. destruct x; cbn in *.
@@ -440,10 +444,11 @@ Qed.
 
 (* ---- C14 (d): after close() has returned the background tasks finish ---- *)
 Definition hold_w (h : holder) : nat :=
-  match h with HNone => 0 | HBackoff _ => 1 | HAwaitDrain _ => 2 | HAwaitImpl _ => 3 | HCancelWait => 3 | HStatusCb => 4 end.
+  match h with HNone => 0 | HBackoff _ => 1 | HAwaitDrain _ => 2 | HAwaitImpl _ => 3 | HCancelWait => 18 | HStatusCb => 19 end.
 Definition fin_measure (x : g) : nat :=
   2 * pending_connects x + hold_w (hold x) + (match rx x with RCreated => 1 | _ => 0 end) + old_creq x + 3 * send_cb x
-  + 2 * c2_rx x + c2_cons x.
+  + 2 * c2_rx x + c2_cons x
+  + 5 * seed_new x + 4 * seed_sleep x + 2 * seed_drain x + 3 * seed_cb x + 5 * seed_more x + seed_susp x.
 (* steps of the client's own tasks (connect retry, receive loops, queue consumer, close, fault handlers);
    the others are the application (connect(), send()) and the peer *)
 Definition background (a : act) : bool :=
@@ -453,7 +458,7 @@ Definition background (a : act) : bool :=
   end.
 
 Lemma fin_step fe fl x a y : closed_iff_closing x -> I5 x -> closing x = KDone -> background a = true ->
-  trans k fe true fl fd fg x a = Some y -> closing y = KDone /\ (fin_measure y < fin_measure x)%nat.
+  trans k sd fe true fl fd fg x a = Some y -> closing y = KDone /\ (fin_measure y < fin_measure x)%nat.
 Proof.
   unfold closed_iff_closing, I5, rx_quiet, cons_alive, fin_measure, hold_w.
   intros C (D1 & D2 & D3 & D4) E B. destruct x; cbn in *. subst.
@@ -464,7 +469,7 @@ Proof.
 Qed.
 
 (* ---- F-serial-drain-leak repaired: no port is left open by a failed configuration write ---- *)
-Lemma DF_step fe fc fl x a y : drainfail_w x = [] -> trans k fe fc fl true fg x a = Some y -> drainfail_w y = [].
+Lemma DF_step fe fc fl x a y : drainfail_w x = [] -> trans k sd fe fc fl true fg x a = Some y -> drainfail_w y = [].
 Proof.
   intros D. destruct x; cbn in *. subst. destruct a.
   all: step_cases ltac:(auto).
@@ -483,9 +488,9 @@ Fixpoint nodup_adj (l : list cst) : Prop :=
 Definition trace_ok (x : g) : Prop :=
   hd Disc (trace x ++ [Disc]) = st x /\ nodup_adj (trace x ++ [Disc]).
 
-Lemma trace_ok_step k fe fc fl fd fg x a y : trace_ok x -> trans k fe fc fl fd fg x a = Some y -> trace_ok y.
+Lemma trace_ok_step k sd fe fc fl fd fg x a y : trace_ok x -> trans k sd fe fc fl fd fg x a = Some y -> trace_ok y.
 Proof.
-  unfold trace_ok. intros [A B] H. destruct (trace_step k fd fg fe fc fl x a y H) as [[E1 E2]|[E1 E2]].
+  unfold trace_ok. intros [A B] H. destruct (trace_step k sd fd fg fe fc fl x a y H) as [[E1 E2]|[E1 E2]].
   - rewrite E1, E2. auto.
   - rewrite E2. simpl. split; [reflexivity|].
     destruct (trace x ++ [Disc]) as [|s t] eqn:E.
@@ -494,10 +499,10 @@ Proof.
 Qed.
 
 (* sequence of states visited by a run, and the changes in a sequence of states *)
-Fixpoint sts (k : kind) (fe fc fl fd fg : bool) (x : g) (ls : list act) : list cst :=
+Fixpoint sts (k : kind) (sd fe fc fl fd fg : bool) (x : g) (ls : list act) : list cst :=
   match ls with
   | [] => []
-  | a :: t => match trans k fe fc fl fd fg x a with Some y => st y :: sts k fe fc fl fd fg y t | None => [] end
+  | a :: t => match trans k sd fe fc fl fd fg x a with Some y => st y :: sts k sd fe fc fl fd fg y t | None => [] end
   end.
 Fixpoint changes (cur : cst) (l : list cst) : list cst :=
   match l with [] => [] | s :: t => if cst_eqb cur s then changes s t else s :: changes s t end.
@@ -505,14 +510,14 @@ Fixpoint changes (cur : cst) (l : list cst) : list cst :=
 Lemma cst_eqb_eq a b : cst_eqb a b = true <-> a = b.
 Proof. destruct a, b; simpl; split; congruence. Qed.
 
-Lemma status_trace_run k fe fc fl fd fg ls : forall x y, run k fe fc fl fd fg x ls = Some y ->
-  rev (trace y) = rev (trace x) ++ changes (st x) (sts k fe fc fl fd fg x ls).
+Lemma status_trace_run k sd fe fc fl fd fg ls : forall x y, run k sd fe fc fl fd fg x ls = Some y ->
+  rev (trace y) = rev (trace x) ++ changes (st x) (sts k sd fe fc fl fd fg x ls).
 Proof.
   induction ls as [|a t IH]; intros x y H; simpl in *.
   - injection H as <-. now rewrite app_nil_r.
-  - destruct (trans k fe fc fl fd fg x a) as [z|] eqn:E; [|discriminate].
+  - destruct (trans k sd fe fc fl fd fg x a) as [z|] eqn:E; [|discriminate].
     rewrite (IH z y H). simpl.
-    destruct (trace_step k fd fg fe fc fl x a z E) as [[E1 E2]|[E1 E2]].
+    destruct (trace_step k sd fd fg fe fc fl x a z E) as [[E1 E2]|[E1 E2]].
     + rewrite E2. destruct (cst_eqb (st x) (st z)) eqn:Q; [reflexivity|].
       exfalso. rewrite <- E1 in Q. destruct (st z); discriminate.
     + rewrite E2. simpl. destruct (cst_eqb (st x) (st z)) eqn:Q.
@@ -522,9 +527,10 @@ Qed.
 
 Section AllRuns.
 Variable k : kind.
-Notation T := (trans k true true true true true).
-Notation R := (run k true true true true true).
-Notation reach := (reachable k true true true true true).
+Variable sd : bool.
+Notation T := (trans k sd true true true true true).
+Notation R := (run k sd true true true true true).
+Notation reach := (reachable k sd true true true true true).
 
 Definition Inv (x : g) : Prop :=
   I0 x /\ I1 x /\ I2 x /\ I5 x /\ W x /\ NW x /\ excl x /\ trace_ok x.
@@ -560,22 +566,22 @@ Lemma R1 x : reach x -> I1 x.
 Proof. apply reachable_invariant; [apply Inv_init | intros; eapply I1_step; eauto]. Qed.
 Lemma R2 x : reach x -> I0 x /\ I2 x.
 Proof.
-  apply (reachable_invariant k true true true true true (fun x => I0 x /\ I2 x)); [split; apply Inv_init|].
+  apply (reachable_invariant k sd true true true true true (fun x => I0 x /\ I2 x)); [split; apply Inv_init|].
   intros y a z [A B] H. split; [eapply I0_step; eauto | eapply I2_step; eauto].
 Qed.
 Lemma R5 x : reach x -> I0 x /\ I5 x.
 Proof.
-  apply (reachable_invariant k true true true true true (fun x => I0 x /\ I5 x)); [split; apply Inv_init|].
+  apply (reachable_invariant k sd true true true true true (fun x => I0 x /\ I5 x)); [split; apply Inv_init|].
   intros y a z [A B] H. split; [eapply I0_step; eauto | eapply I5_step; eauto].
 Qed.
 Lemma RW x : reach x -> I0 x /\ W x.
 Proof.
-  apply (reachable_invariant k true true true true true (fun x => I0 x /\ W x)); [split; apply Inv_init|].
+  apply (reachable_invariant k sd true true true true true (fun x => I0 x /\ W x)); [split; apply Inv_init|].
   intros y a z [A B] H. split; [eapply I0_step; eauto | eapply W_step; eauto; apply A].
 Qed.
 Lemma RNW x : reach x -> I0 x /\ NW x.
 Proof.
-  apply (reachable_invariant k true true true true true (fun x => I0 x /\ NW x)); [split; apply Inv_init|].
+  apply (reachable_invariant k sd true true true true true (fun x => I0 x /\ NW x)); [split; apply Inv_init|].
   intros y a z [A B] H. split; [eapply I0_step; eauto | eapply NW_step; eauto; apply A].
 Qed.
 Lemma RE x : reach x -> excl x.
@@ -621,7 +627,7 @@ Theorem retry_delay x a y d : reach x -> a = AImplFail d \/ a = AImplFailOpened 
             d = wait2 (Z.of_nat n) /\ 1 <= d <= 20 /\ lock y = true /\ st y = st x.
 Proof.
   intros H A E. apply R0 in H. destruct H as (A0 & A1 & _).
-  destruct (connect_fail_step k _ _ _ _ _ x a y d A A1 A0 E) as (n & B1 & B2 & B3 & B4 & B5 & B6 & _).
+  destruct (connect_fail_step k sd _ _ _ _ _ x a y d A A1 A0 E) as (n & B1 & B2 & B3 & B4 & B5 & B6 & _).
   exists n. repeat split; auto; try lia.
   unfold attempt_no_ok in A1. destruct B1 as [B1|B1]; rewrite B1 in A1; exact A1.
 Qed.
@@ -639,14 +645,14 @@ Qed.
 Fixpoint busy_run (fe fc fl fd fg : bool) (x : g) (ls : list act) : option g :=
   match ls with
   | [] => Some x
-  | a :: t => if busy x then match trans k fe fc fl fd fg x a with Some y => busy_run fe fc fl fd fg y t | None => None end else None
+  | a :: t => if busy x then match trans k sd fe fc fl fd fg x a with Some y => busy_run fe fc fl fd fg y t | None => None end else None
   end.
 
 Lemma burst_bounded ls : forall x y, excl x -> busy_run true true true true true x ls = Some y -> (length ls <= mu x)%nat.
 Proof.
   induction ls as [|a t IH]; intros x y E H; simpl in *; [lia|].
   destruct (busy x) eqn:B; [|discriminate]. destruct (T x a) as [z|] eqn:S; [|discriminate].
-  pose proof (busy_step k true true true true x a z E B S). pose proof (excl_step k _ _ _ _ _ x a z E S) as E'.
+  pose proof (busy_step k sd true true true true x a z E B S). pose proof (excl_step k sd _ _ _ _ _ x a z E S) as E'.
   specialize (IH z y E' H). lia.
 Qed.
 
@@ -673,9 +679,9 @@ Theorem connect_finishes x a y : reach x -> lock x = true -> T x a = Some y -> l
   (rx y = RCreated /\ rx_creq y = false /\ old_live y = 0%nat /\
    (st y = Conn \/ (st y = Disc /\ (0 < pending_connects y)%nat))).
 Proof.
-  intros H L S U. pose proof (reachable_step _ _ _ _ _ _ _ _ _ H S) as H'. apply single_receive_path in H'.
+  intros H L S U. pose proof (reachable_step _ _ _ _ _ _ _ _ _ _ H S) as H'. apply single_receive_path in H'.
   apply R0 in H. destruct H as (A & _).
-  destruct (lock_release_step k _ _ _ _ x a y A L S U) as [C|(B1 & B2 & B3)]; [left; exact C|right; auto].
+  destruct (lock_release_step k sd _ _ _ _ x a y A L S U) as [C|(B1 & B2 & B3)]; [left; exact C|right; auto].
 Qed.
 
 Theorem fresh_receive_task_runs x y : st x <> Closed -> T x ARxStart = Some y -> rx x = RCreated /\ rx y = RRun.
@@ -690,7 +696,7 @@ Proof.
   induction ls as [|a t IH]; intros x y C H; simpl in H.
   - injection H as <-. auto.
   - destruct (T x a) as [z|] eqn:S; [|discriminate].
-    destruct (closed_step k _ _ _ _ x a z C S) as (C1 & C2 & C3).
+    destruct (closed_step k sd _ _ _ _ x a z C S) as (C1 & C2 & C3).
     destruct (IH z y C1 H) as (D1 & D2 & D3). repeat split; congruence.
 Qed.
 
@@ -713,7 +719,7 @@ Qed.
 
 Lemma RDF x : reach x -> drainfail_w x = [].
 Proof.
-  apply (reachable_invariant k true true true true true (fun x => drainfail_w x = [])); [reflexivity|].
+  apply (reachable_invariant k sd true true true true true (fun x => drainfail_w x = [])); [reflexivity|].
   intros y a z D H. eapply DF_step; eauto.
 Qed.
 
@@ -759,7 +765,7 @@ Qed.
 
 Lemma RK2 x : reach x -> I0 x /\ K2 x.
 Proof.
-  apply (reachable_invariant k true true true true true (fun x => I0 x /\ K2 x)).
+  apply (reachable_invariant k sd true true true true true (fun x => I0 x /\ K2 x)).
   - split; [apply Inv_init|]. unfold K2; simpl; lia.
   - intros y a z [A B] H. split; [eapply I0_step; eauto|]. eapply K2_step; eauto. apply A.
 Qed.
@@ -789,13 +795,13 @@ Theorem every_close_return_link_shut x a y : reach x -> T x a = Some y -> closes
 Proof.
   intros H E D. pose proof (R5 x H) as ((_ & _ & C) & A5). pose proof (RW x H) as (_ & Aw). pose proof (RK2 x H) as (_ & Ak).
   destruct (close_return_step x a y C A5 Aw Ak E D) as (B1 & B2 & B3). split; [exact B1|]. split; [|exact B3].
-  intros w Ew. rewrite Ew in B2. pose proof (RDF y (reachable_step _ _ _ _ _ _ _ _ _ H E)) as Df. rewrite Df in B2.
+  intros w Ew. rewrite Ew in B2. pose proof (RDF y (reachable_step _ _ _ _ _ _ _ _ _ _ H E)) as Df. rewrite Df in B2.
   destruct B2 as [B2|[B2|B2]]; auto. destruct B2.
 Qed.
 
 (* (b) the status callback: invoked exactly at the state changes, in order *)
 Theorem status_trace_faithful ls y : R init ls = Some y ->
-  rev (trace y) = changes Disc (sts k true true true true true init ls).
+  rev (trace y) = changes Disc (sts k sd true true true true true init ls).
 Proof. intros H. apply status_trace_run in H. exact H. Qed.
 
 Theorem status_trace_no_repeat x : reach x -> hd Disc (trace x ++ [Disc]) = st x /\ nodup_adj (trace x ++ [Disc]).
@@ -839,8 +845,8 @@ Proof.
   induction ls as [|a t IH]; intros x y H E B S; simpl in *; [lia|].
   apply andb_prop in B. destruct B as [B1 B2]. destruct (T x a) as [z|] eqn:Z; [|discriminate].
   pose proof (R5 x H) as ((_ & _ & A) & A5).
-  destruct (fin_step k _ _ _ _ x a z A A5 E B1 Z) as [E' M].
-  specialize (IH z y (reachable_step _ _ _ _ _ _ _ _ _ H Z) E' B2 S). lia.
+  destruct (fin_step k sd _ _ _ _ x a z A A5 E B1 Z) as [E' M].
+  specialize (IH z y (reachable_step _ _ _ _ _ _ _ _ _ _ H Z) E' B2 S). lia.
 Qed.
 End AllRuns.
 
@@ -849,14 +855,15 @@ End AllRuns.
 
 Section Progress.
 Variable k : kind.
-Notation T := (trans k true true true true true).
+Variable sd : bool.
+Notation T := (trans k sd true true true true true).
 
 Lemma not_busy_allowed x a : busy x = false -> allowed x a = true.
 Proof. unfold busy, allowed. destruct (rx x), (cons x); simpl; intros; try discriminate; destruct a; reflexivity. Qed.
 
 Definition reconnect_step (a : act) : Prop :=
   match a with
-  | AConnEntry _ | AImplFail _ | ABackoffDone | AConnCbDone | ACancelWaitDone | ARxCbDone | ASendCbDone => True
+  | AConnEntry _ | AImplFail _ | ABackoffDone | AConnCbDone | ACancelWaitDone | ARxCbDone | ASendCbDone | ASeedCbDone _ => True
   | _ => False
   end.
 
@@ -865,7 +872,7 @@ Definition reconnect_step (a : act) : Prop :=
 Theorem reconnect_progress x : hold_lock_ok x -> busy x = false -> reconnect_pending x ->
   exists a y, reconnect_step a /\ T x a = Some y.
 Proof.
-  unfold hold_lock_ok, reconnect_pending. intros A B [L|[P|[[R C]|S]]].
+  unfold hold_lock_ok, reconnect_pending. intros A B [L|[P|[[R C]|[S|S2]]]].
   - rewrite L in A. destruct (hold x) as [|n|n|n| |] eqn:H; try discriminate A.
     + exists (AImplFail (wait2 (Z.of_nat n))). eexists. split; [exact I|].
       unfold trans. rewrite (not_busy_allowed x _ B), H. simpl. rewrite Z.eqb_refl. reflexivity.
@@ -882,9 +889,11 @@ Proof.
   - exists ARxCbDone. eexists. split; [exact I|]. unfold trans. rewrite (not_busy_allowed x _ B), R, C. reflexivity.
   - exists ASendCbDone. unfold trans. rewrite (not_busy_allowed x _ B). simpl.
     destruct (send_cb x) as [|n] eqn:E; [lia|]. eexists. split; [exact I|reflexivity].
+  - exists (ASeedCbDone false). unfold trans. rewrite (not_busy_allowed x _ B). simpl.
+    destruct (seed_cb x) as [|n] eqn:E; [lia|]. eexists. split; [exact I|reflexivity].
 Qed.
 
-Theorem reconnect_progress_reachable x : reachable k true true true true true x -> busy x = false -> reconnect_pending x ->
+Theorem reconnect_progress_reachable x : reachable k sd true true true true true x -> busy x = false -> reconnect_pending x ->
   exists a y, reconnect_step a /\ T x a = Some y.
 Proof. intros H. apply R0 in H. destruct H as (A & _). now apply reconnect_progress. Qed.
 End Progress.
@@ -894,20 +903,22 @@ End Progress.
 
 Section Recovery.
 Variable k : kind.
-Notation R := (run k true true true true true).
+Variable sd : bool.
+Notation R := (run k sd true true true true true).
 
 (* steps of the connect machinery, plus "the attempt succeeds" *)
 Definition recovery_step (a : act) : Prop :=
   match a with
-  | AConnEntry _ | AImplOk _ | ABackoffDone | AConnCbDone | ACancelWaitDone | ARxCbDone | ASendCbDone => True
+  | AConnEntry _ | AImplOk _ | ABackoffDone | AConnCbDone | ACancelWaitDone | ARxCbDone | ASendCbDone | ASeedCbDone _ => True
   | _ => False
   end.
 (* CONNECTED, connect() finished, a fresh receive task that nobody has cancelled *)
 Definition recovered (y : g) : Prop := st y = Conn /\ lock y = false /\ rx y = RCreated /\ rx_creq y = false.
 
-Lemma run_witness x ls (P : g -> Prop) :
-  match R x ls with Some y => P y | None => False end -> exists y, R x ls = Some y /\ P y.
-Proof. destruct (R x ls) as [y|]; [eauto|tauto]. Qed.
+Lemma run_witness sd0 x ls (P : g -> Prop) :
+  match run k sd0 true true true true true x ls with Some y => P y | None => False end ->
+  exists y, run k sd0 true true true true true x ls = Some y /\ P y.
+Proof. destruct (run k sd0 true true true true true x ls) as [y|]; [eauto|tauto]. Qed.
 
 Ltac try_path l :=
   solve [ exists l; split; [ split; [ repeat constructor | simpl; lia ] |];
@@ -924,21 +935,24 @@ Ltac find_path :=
         | try_path [AConnEntry true; AImplOk CbRet; ACancelWaitDone]
         | try_path [ARxCbDone; AConnEntry true; AImplOk CbRet]
         | try_path [ASendCbDone; AConnEntry true; AImplOk CbRet]
-        | try_path [ASendCbDone; AConnEntry true; AImplOk CbRet; ACancelWaitDone] ].
+        | try_path [ASendCbDone; AConnEntry true; AImplOk CbRet; ACancelWaitDone]
+        | try_path [ASeedCbDone false; AConnEntry true; AImplOk CbRet]
+        | try_path [ASeedCbDone false; AConnEntry true; AImplOk CbRet; ACancelWaitDone] ].
 
 Theorem recovery_possible_from x : hold_lock_ok x -> st x = Disc -> busy x = false -> reconnect_pending x ->
   exists ls, (Forall recovery_step ls /\ (length ls <= 5)%nat) /\ exists y, R x ls = Some y /\ recovered y.
 Proof.
-  unfold hold_lock_ok, busy, reconnect_pending, recovered. intros A D B P. destruct x; cbn in *. subst.
-  destruct hold as [|n|n|n| |]; destruct rx; destruct cons; cbn in B; try discriminate B; clear B.
+  unfold hold_lock_ok, busy, reconnect_pending, recovered. intros A D B P. destruct sd; destruct x; cbn in *; subst.
+  all: destruct hold as [|n|n|n| |]; destruct rx; destruct cons; cbn in B; try discriminate B; clear B.
   all: try find_path.
-  all: destruct P as [L|[Pp|[[Rr C]|S]]]; try discriminate.
+  all: destruct P as [L|[Pp|[[Rr C]|[S|S2]]]]; try discriminate.
   all: try (destruct pending_connects; [lia|]; find_path).
   all: try (subst; destruct pending_connects; find_path).
   all: try (destruct send_cb; [lia|]; destruct pending_connects; find_path).
+  all: try (destruct seed_cb; [lia|]; destruct pending_connects; find_path).
 Qed.
 
-Theorem recovery_possible x : reachable k true true true true true x -> st x = Disc -> busy x = false -> reconnect_pending x ->
+Theorem recovery_possible x : reachable k sd true true true true true x -> st x = Disc -> busy x = false -> reconnect_pending x ->
   exists ls, (Forall recovery_step ls /\ (length ls <= 5)%nat) /\ exists y, R x ls = Some y /\ recovered y.
 Proof. intros H. apply R0 in H. destruct H as (A & _). now apply recovery_possible_from. Qed.
 End Recovery.
@@ -951,13 +965,13 @@ End Recovery.
 Definition spin_prefix : list act :=
   [AUserConnect; AConnEntry true; AImplOk CbRet; AConsStart; ARxStart; ARxIter RxSusp; AEnvEof; ARxIter (RxRet 0 0)].
 
-Lemma spin_forever k fe fc fl fd fg s a : busy s = true -> trans k fe fc fl fd fg s a = Some s ->
-  forall n, busy_run k fe fc fl fd fg s (repeat a n) = Some s.
+Lemma spin_forever k sd fe fc fl fd fg s a : busy s = true -> trans k sd fe fc fl fd fg s a = Some s ->
+  forall n, busy_run k sd fe fc fl fd fg s (repeat a n) = Some s.
 Proof. intros B S. induction n as [|n IH]; simpl; [reflexivity|]. now rewrite B, S. Qed.
 
 Example eofspin_as_it_was : exists s,
-  run KText false true true true true init spin_prefix = Some s /\ busy s = true /\ st s = Conn /\
-  forall n, busy_run KText false true true true true s (repeat (ARxIter (RxRet 0 0)) n) = Some s.
+  run KText false false true true true true init spin_prefix = Some s /\ busy s = true /\ st s = Conn /\
+  forall n, busy_run KText false false true true true true s (repeat (ARxIter (RxRet 0 0)) n) = Some s.
 Proof.
   eexists. split; [vm_compute; reflexivity|]. split; [reflexivity|]. split; [reflexivity|].
   apply spin_forever; vm_compute; reflexivity.
@@ -965,8 +979,8 @@ Qed.
 
 (* the same prefix is a run of the repaired model up to the last step, which is refused: an empty read raises *)
 Example eofspin_repaired :
-  run KText true true true true true init spin_prefix = None /\
-  exists s, run KText true true true true true init (removelast spin_prefix ++ [ARxIter (RxRaise 0 CbRet)]) = Some s /\
+  run KText false true true true true true init spin_prefix = None /\
+  exists s, run KText false true true true true true init (removelast spin_prefix ++ [ARxIter (RxRaise 0 CbRet)]) = Some s /\
             st s = Disc /\ pending_connects s = 1%nat /\ rx s = RDone.
 Proof. split; [vm_compute; reflexivity|]. eexists. vm_compute. repeat split. Qed.
 
@@ -975,12 +989,12 @@ Definition closerace : list act :=
   [AConsStart; AUserConnect; AConnEntry true; AClose CbRet; AConsCancelled; ACloseTimer; AImplOk CbRet].
 
 Example closerace_as_it_was : exists x,
-  run KEByte true false true true true init closerace = Some x /\
+  run KEByte false true false true true true init closerace = Some x /\
   st x = Conn /\ trace x = [Conn; Closed] /\ closing x = KDone /\ writer x = Some 0%nat /\ closed_w x = [] /\ rx x = RCreated.
 Proof. eexists. vm_compute. repeat split. Qed.
 
 Example closerace_repaired : exists x,
-  run KEByte true true true true true init (removelast closerace ++ [AImplOk CbNone]) = Some x /\
+  run KEByte false true true true true true init (removelast closerace ++ [AImplOk CbNone]) = Some x /\
   st x = Closed /\ trace x = [Closed] /\ writer x = Some 0%nat /\ closed_w x = [0%nat] /\ rx x = RNone /\ lock x = false.
 Proof. eexists. vm_compute. repeat split. Qed.
 
@@ -993,12 +1007,12 @@ Definition connect_lost : list act :=
    AConnCbDone; ARxStart; ARxIter RxSusp].                          (* the first connect() finishes and releases the lock *)
 
 Example connect_lost_as_it_was : exists x,
-  run KEByte true true false true true init connect_lost = Some x /\
+  run KEByte false true true false true true init connect_lost = Some x /\
   st x = Disc /\ lock x = false /\ pending_connects x = 0%nat /\ send_cb x = 0%nat /\ rx x = RWait /\ trace x = [Disc; Conn].
 Proof. eexists. vm_compute. repeat split. Qed.
 
 Example connect_lost_repaired : exists x,
-  run KEByte true true true true true init connect_lost = Some x /\ st x = Disc /\ pending_connects x = 1%nat.
+  run KEByte false true true true true true init connect_lost = Some x /\ st x = Disc /\ pending_connects x = 1%nat.
 Proof. eexists. vm_compute. repeat split. Qed.
 
 (* F-serial-drain-leak: close() while open_serial_connection() is pending; the port opens, the configuration drain raises *)
@@ -1006,12 +1020,12 @@ Definition drainleak : list act :=
   [AConsStart; AUserConnect; AConnEntry true; AClose CbRet; AConsCancelled; ACloseTimer; AImplOpened; AImplFail 1; ABackoffDone].
 
 Example drainleak_as_it_was : exists x,
-  run KSerial true true true false true init drainleak = Some x /\
+  run KSerial false true true true false true init drainleak = Some x /\
   st x = Closed /\ closing x = KDone /\ hold x = HNone /\ n0 x = 0%nat /\ next_w x = 1%nat /\ writer x = Some 0%nat /\ closed_w x = [].
 Proof. eexists. vm_compute. repeat split. Qed.
 
 Example drainleak_repaired : exists x,
-  run KSerial true true true true true init drainleak = Some x /\
+  run KSerial false true true true true true init drainleak = Some x /\
   st x = Closed /\ closing x = KDone /\ hold x = HNone /\ writer x = Some 0%nat /\ closed_w x = [0%nat] /\ drainfail_w x = [].
 Proof. eexists. vm_compute. repeat split. Qed.
 
@@ -1022,13 +1036,31 @@ Definition close_twice : list act :=
   [AConsStart; AUserConnect; AConnEntry true; AImplOk CbRet; ARxStart; ARxIter RxSusp; AClose CbSusp; AClose2Entry].
 
 Example close_guard_as_it_would_be : exists x,
-  run KEByte true true true true false init close_twice = Some x /\
+  run KEByte false true true true true false init close_twice = Some x /\
   closes_done x = 1%nat /\ st x = Closed /\ closing x = KInCb /\ writer x = Some 0%nat /\ closed_w x = [] /\
   rx x = RWait /\ rx_creq x = false.
 Proof. eexists. vm_compute. repeat split. Qed.
 
 Example close_twice_as_it_is : exists x,
-  run KEByte true true true true true init (close_twice ++ [ARxCancelled; AEnvEof; AClose2Timer true; AConsCancelled; AClose2Timer false]) = Some x /\
+  run KEByte false true true true true true init (close_twice ++ [ARxCancelled; AEnvEof; AClose2Timer true; AConsCancelled; AClose2Timer false]) = Some x /\
   closes_done x = 1%nat /\ st x = Closed /\ closing x = KInCb /\ writer x = Some 0%nat /\ closed_w x = [0%nat] /\
   rx x = RDone /\ cons x = CDone.
 Proof. eexists. vm_compute. repeat split. Qed.
+
+(* The seeding task ([sd = true]): started by the successful connect(), interrupted by close() between its first and its
+   second request; it still runs to its end - the remaining sleeps end, the remaining sends (one of them suspending in the
+   send lock / drain) return on the CLOSED client - and nothing of it is left *)
+Definition seeding_then_close : list act :=
+  [AConsStart; AUserConnect; AConnEntry true; AImplOk CbRet; ARxStart; ARxIter RxSusp; ASeedStart; ASeedTimer SReturn true;
+   AClose CbRet; ARxCancelled; ACloseTimer; AConsCancelled; ACloseTimer;
+   ASeedTimer SDrainSusp false; ASeedDrainDone SReturn true; ASeedTimer SReturn false].
+
+Example seeding_task_finishes_after_close : exists x,
+  run KEByte true true true true true true init seeding_then_close = Some x /\
+  st x = Closed /\ closing x = KDone /\ attempts x = 1%nat /\ trace x = [Closed; Conn] /\
+  (seed_new x + seed_sleep x + seed_drain x + seed_cb x = 0)%nat /\ seed_more x = 0%nat.
+Proof. eexists. vm_compute. repeat split. Qed.
+
+Example no_seeding_task_without_the_parameter :
+  run KEByte false true true true true true init [AConsStart; AUserConnect; AConnEntry true; AImplOk CbRet; ASeedStart] = None.
+Proof. vm_compute. reflexivity. Qed.
